@@ -219,30 +219,36 @@ def quote(ctx):
                         'the loader cannot tokenise' % (q, src(a) if a is not None else '?'))
     if n_sites < 2:
         raise AnalysisError('only %d quoted-%%s writer sites found in persist.py' % n_sites)
-    # reader sites: STRING token value stripped with [1:-1]
-    lmod = repo.module('xtuml.load')
+    # reader sites: a grammar action that takes a STRING token apart does exactly the inverse of the writer: the one quote at each end
+    # removed ([1:-1]), then '' -> '
     n_read = 0
-    for n in ast.walk(lmod.tree):
-        if isinstance(n, ast.Subscript) and src(n.slice) == '1:-1':
-            fn = n
-            while fn is not None and not isinstance(fn, ast.FunctionDef):
-                fn = fn._parent
-            q = qualname(n)
-            # is the stripped value a STRING token?  (a) production position whose symbol is STRING, (b) the STRING branch of deserialize_value
-            is_string = False
-            m = pm.match('p[_I][1:-1]', n)
-            if m and fn.name.startswith('p_'):
-                for p in g.productions:
-                    if p.fn is fn and isinstance(m['_I'], ast.Constant) and p.syms[m['_I'].value - 1] == 'STRING':
-                        is_string = True
-            if not is_string:
+    for p_ in g.productions:
+        fn = p_.fn
+        pv = fn.args.args[1].arg if len(fn.args.args) > 1 else 'p'
+        parents_ = {}
+        for x_ in ast.walk(fn):
+            for ch_ in ast.iter_child_nodes(x_):
+                parents_[id(ch_)] = x_
+        for k_, sym_ in enumerate(p_.syms, 1):
+            if sym_ != 'STRING':
                 continue
-            n_read += 1
-            par = n._parent
-            unesc = isinstance(par, ast.Attribute) and par.attr == 'replace' and UNESCAPE in src(par._parent)
-            r.check(unesc, '%s: quotes stripped from a STRING token and doubled quotes undone' % q, n, construct=q, key='not-unescaped ' + src(n),
-                    msg='%s strips the quotes of a STRING token (`%s`) without turning \'\' back into \': the loaded text differs from the '
-                        'text that was written' % (q, src(n)))
+            for n in ast.walk(fn):
+                if pm.match('%s[%d]' % (pv, k_), n) is None or not isinstance(n, ast.Subscript) or not isinstance(n.ctx, ast.Load):
+                    continue
+                par = parents_.get(id(n))
+                taken_apart = (isinstance(par, ast.Subscript) and par.value is n) or (isinstance(par, ast.Attribute) and par.value is n)
+                if not taken_apart:
+                    continue        # handed on as the raw lexeme (deserialize_value takes it apart later)
+                q = '%s.%s' % (LD, fn.name)
+                n_read += 1
+                top = par
+                while isinstance(parents_.get(id(top)), (ast.Attribute, ast.Call, ast.Subscript)) and \
+                        (getattr(parents_[id(top)], 'value', None) is top or getattr(parents_[id(top)], 'func', None) is top):
+                    top = parents_[id(top)]
+                good = pm.match('%s[%d][1:-1].%s' % (pv, k_, UNESCAPE), top) is not None
+                r.check(good, '%s: quotes stripped from a STRING token and doubled quotes undone' % q, n, construct=q, key='not-unescaped ' + src(top)[:40],
+                        msg='%s takes the STRING token apart with `%s`; the inverse of the writer is exactly [1:-1] (one quote at each end) followed '
+                            'by replacing \'\' with \': any other stripping changes texts that begin or end with a quote, or leaves doubled quotes' % (q, src(top)))
     # the STRING branch of deserialize_value, whatever its spelling: the expression it returns for a quoted token
     dv_, VAL_, table_ = reader_table(repo)
     o_ = table_[('STRING', 'squoted')]
